@@ -136,6 +136,21 @@ def explore(ctx, scale=1.0):
     docs = C13.gen_documents(ctx, int((3000 if ctx.thorough else 400) * scale))
     ctexts = corpus.texts()
     docs += [(t, "corpus") for _, t in (ctexts if ctx.thorough else rng.sample(ctexts, 60))]
+    # object blocks that exist once per parent, nested two and three levels down (every singleton object type under its parents)
+    singles = []
+    for pt in gen.object_types():
+        for pk, pp in gen.raw(pt)["properties"].items():
+            for sh in gen.shapes(pp, pk):
+                if sh[0] == "object" and sh[1] and sh[1] not in ("metadata", "validation", "values", "connectionoptions") and (pt, pk) not in (("class", "symbol"), ("style", "symbol")):
+                    singles.append((pt, pk, sh[1]))
+    for pt, pk, ct in singles:
+        for outer in ([("map", "layers")] if pt == "layer" else [("layer", "classes")] if pt == "class" else [("class", "styles")] if pt == "style" else [("class", "labels")] if pt == "label" else []):
+            child = gen.gen_block(rng, ct, depth=0, max_items=3)
+            mid = gen.gen_block(rng, pt, depth=0, max_items=3)
+            mid.items.append(("block", pk, child, False))
+            top = gen.Block(outer[0])
+            top.items.append(("block", outer[1], mid, True))
+            docs.insert(rng.randrange(len(docs) + 1), (gen.render(top), "nested-singleton"))
     V = Validator()
     treqs, tkeep, mreqs, mkeep = [], [], [], []
     for idx, (text, kind) in enumerate(docs):
@@ -179,8 +194,11 @@ def explore(ctx, scale=1.0):
             ctx.violation(f"validate-raises:{type(ex).__name__}", f"validate raises {type(ex).__name__} on a dictionary produced by loads", rep)
             continue
         base_set = [(m["message"], m.get("line"), m.get("column")) for m in base]
-        for _ in range(2):
-            path, o = rng.choice(objs)
+        # two random faults, then (when the document has one) a directed fault in a singleton block nested two or more levels
+        # down (MAP > LAYER > CLUSTER …): the message must carry that block's own position, not an ancestor's
+        deep = [(p, o) for p, o in objs if len(p) >= 2 and isinstance(p[-1], str) and o.get("__type__") not in ("metadata", "validation", "values", "connectionoptions")]
+        picks = [rng.choice(objs), rng.choice(objs)] + ([rng.choice(deep)] if deep else [])
+        for n_pick, (path, o) in enumerate(picks):
             d2 = copy.deepcopy(d)
             o2 = d2
             for k in path:
@@ -189,7 +207,12 @@ def explore(ctx, scale=1.0):
                       and "line" in o["__position__"][k] and not isinstance(v, (dict, list))]
             repeated = [k for k, v in o.items() if isinstance(v, list) and len(v) >= 1 and isinstance(o["__position__"].get(k), list)
                         and len(o["__position__"][k]) == len(v) and all(isinstance(x, str) for x in v)]
-            if repeated and rng.random() < .5:
+            if n_pick == 2:
+                o2["zzunknown"] = 1
+                want = (o["__position__"]["line"], o["__position__"]["column"])
+                wkey = o["__type__"].upper()
+                fault = f"nested-singleton unknown keyword in {'/'.join(map(str, path))}"
+            elif repeated and rng.random() < .5:
                 # a fault in ONE occurrence of a repeated keyword (PROCESSING, FORMATOPTION, …): the message must carry that occurrence's position
                 k = rng.choice(repeated)
                 i = rng.randrange(len(o[k]))
